@@ -99,6 +99,10 @@ func cloneContext(src *ReceiveContext) *ReceiveContext {
 	dst.sender = src.sender
 	dst.self = src.self
 	dst.response = src.response
+	// dst comes from the pool with whatever responseClosed its previous use
+	// left behind (reset() deliberately skips it); carry over src's state so
+	// a stashed Ask can still be answered once, after it is unstashed.
+	dst.responseClosed.Store(src.responseClosed.Load())
 	dst.requestID = src.requestID
 	dst.requestReplyTo = src.requestReplyTo
 	dst.err = src.err
